@@ -10,6 +10,9 @@ def edge_sig(sig, e, v):
         buf = m.group(1) if m else "?"
         sig["fact_load_emitted"] = bool(re.search(r"^\s*stg\[.*\] = " + re.escape(buf) + r"\[", tb, re.M))
     ta = e.get("text_a") or ""
+    if e["op"] == "resize_dim" and sig.get("fact_fold"):
+        # is the folded buffer (or any buffer) viewed through a window with an interval coordinate?
+        sig["fact_source_has_interval_window"] = bool(re.search(r"\w+\[[^\]\n]*:[^\]\n]*\]", ta))
     if e["op"] == "sink_alloc":
         # was the allocation sunk into an if statement that has an else branch?
         sig["fact_into_if_else"] = bool(re.search(r"^\s*else:\n\s*\w+: \w+(\[.*\])? @", tb, re.M))
